@@ -610,7 +610,7 @@ Proof. repeat split; vm_compute; reflexivity. Qed.
    clause for all ids of C14's wide domain iri_dom_u (any byte string url.Parse gives a scheme and a host, query
    literal in one letter case).  Nothing above is changed or weakened. *)
 From AP.Model Require Import Fold UrlU IriEqU EqualU.
-From AP.Proofs Require Import IriUP EqualUP.
+From AP.Proofs Require Import IriUP EqualUP StrictLooseUP EqualUrlUP.
 
 (* the generic development: for EVERY comparison that is reflexive and symmetric, ItemsEqual terminates, never
    panics, is reflexive and nil-correct (the statement the two instances come from) *)
@@ -707,19 +707,39 @@ Theorem C09_block_url_u : forall fs gs,
   is_nil (get_item F_URL gs) = false -> ieq_u (get_item F_URL fs) (get_item F_URL gs) = Ok false ->
   cmp_one_u cfg_fixed ieq_u CUrl fs gs = Ok false.
 Proof. exact cmp_u_url_rejects. Qed.
-(* the statement C09_block_url_u had for the old comparison (links differ).  FULL statement: the same without the first
-   hypothesis.  PARTIAL: it is derived (like C09_block_url_links) from "IRI.Equals with the scheme compared is finer
-   than without", which is proved for iri_eqb (Proofs/EqualUrlP.v iri_eqb_strict_loose) and NOT for iri_equ: its
-   letter folding works on runes of different byte lengths, so that strip_scheme commutes with it needs an argument on
-   rune boundaries, and its slow path goes through url_classify_u.  Two cases need no hypothesis: the url of the first
-   argument unset (C09_nil_u), and either url an IRI (C09_iris_u / ItemsEqual's IRI branch compares without scheme). *)
-Theorem C09_block_url_links_u_partial :
-  (forall a b, iri_equ a b true = true -> iri_equ a b false = true) ->
-  forall fs gs, is_nil (get_item F_URL gs) = false ->
+(* the statement C09_block_url_u had for the old comparison (links differ), at FULL strength on the wide instance
+   (builder b56; was C09_block_url_links_u_partial with "IRI.Equals with the scheme compared is finer than without" as
+   a hypothesis).  That fact is now a theorem for ALL byte strings (C09_scheme_finer_u, Proofs/StrictLooseUP.v): the
+   slow path only drops a conjunct; for the fast path, stripScheme respects equality under iri.go equalFold although
+   the folding works on runes of different byte lengths (the cut falls at different byte offsets of the two strings but
+   at the same rune) - ":" and "/" are the canonical form of themselves only and no non-ASCII byte begins "://". *)
+Theorem C09_scheme_finer_u : forall a b, iri_equ a b true = true -> iri_equ a b false = true.
+Proof. exact iri_equ_strict_loose. Qed.
+Theorem C09_links_differ_u : forall x y,
+  is_nil x = false -> is_nil y = false -> iri_equ (lnk y) (lnk x) false = false -> ieq_u x y = Ok false.
+Proof. exact ieq_u_links_differ. Qed.
+Theorem C09_block_url_links_u : forall fs gs,
+  is_nil (get_item F_URL gs) = false ->
   (is_nil (get_item F_URL fs) = true \/
    iri_equ (lnk (get_item F_URL gs)) (lnk (get_item F_URL fs)) false = false) ->
   cmp_one_u cfg_fixed ieq_u CUrl fs gs = Ok false.
-Proof. exact cmp_u_url_links_rejects_partial. Qed.
+Proof. exact cmp_u_url_links_rejects. Qed.
+(* non-vacuity: two url values that are OBJECTS with ids outside the plain grammar (an escaped letter against an escaped
+   percent sign) - neither side is an IRI, so the hypothesis-free cases of the old partial statement do not apply; and
+   C09_scheme_finer_u on a pair that the fold cuts at different byte offsets (Kelvin sign, three bytes, against "k") *)
+Example C09_example_block_url_links_u :
+  let a := B "https://example.com/users/%41lice?k=%4a" in
+  let b := B "https://example.com/users/%2541lice?k=%4a" in
+  let note := fun id => IObj true KObject [(F_ID, FStr id); (F_Type, FStr (B "Note"))] in
+  let fs := ex_url (note a) in
+  let gs := ex_url (note b) in
+  is_nil (get_item F_URL gs) = false /\ is_nil (get_item F_URL fs) = false /\
+  iri_equ (lnk (get_item F_URL gs)) (lnk (get_item F_URL fs)) false = false /\
+  cmp_one_u cfg_fixed ieq_u CUrl fs gs = Ok false /\
+  iri_equ (hx "e284aa3a2f2f612f62") (B "k://A/B") true = true /\
+  iri_equ (hx "e284aa3a2f2f612f62") (B "k://A/B") false = true /\
+  strip_scheme (hx "e284aa3a2f2f612f62") = B "://a/b" /\ strip_scheme (B "k://A/B") = B "://A/B".
+Proof. cbv zeta. repeat split; vm_compute; reflexivity. Qed.
 (* item-valued properties holding IRIs: distinguishable = not IRI-equivalent; on the wide domain = another normal form *)
 Theorem C09_iris_u : forall p a q b, is_nil (IIri p a) = false -> is_nil (IIri q b) = false ->
   ieq_u (IIri p a) (IIri q b) = Ok (iri_equ a b false).
@@ -777,6 +797,47 @@ Proof.
          (IItems false (Some [IIri false (B "https://example.com/users/%2541lice?k=%4a")])).
   repeat split; vm_compute; reflexivity.
 Qed.
+
+(* ---- the wide instance EXTENDS the plain one, as whole models (builder b56; b47 had the relation level only:
+   C14_u_agrees_plain) ----
+   ItemsEqual looks at the IRI comparison only on the ids that occur in its arguments - at any depth: the link of an
+   item, the id of an object or link, rel / href of a link, the members of an IRI list ([ids_in], Model/IdsIn.v) - so two
+   models of IRI.Equals that agree on a set of strings holding the empty string (an unset id) give ONE ItemsEqual on the
+   items whose ids lie in it (C09_ideq_congruence: through every definition of module EqG, then induction on the
+   fuel).  The two models agree on iri_dom (C14_u_agrees_plain) and on the empty string (both: "" equals itself only;
+   C09_plain_or_empty_agree).  Hence every theorem of this file about [ieq] and every one about [ieq_u] speaks of one
+   function there. *)
+From AP.Model Require Import IdsIn.
+From AP.Proofs Require Import EqualCongrP PlainOrEmptyP PlainInstUP.
+Theorem C09_ideq_congruence : forall dom : bytes -> bool, dom [] = true ->
+  forall e1 e2 : bytes -> bytes -> bool -> bool,
+  (forall a b cs, dom a = true -> dom b = true -> e1 a b cs = e2 a b cs) ->
+  forall x y, ids_in dom x = true -> ids_in dom y = true -> EqGI.ieq e1 x y = EqGI.ieq e2 x y.
+Proof. exact ieq_congr. Qed.
+Theorem C09_plain_or_empty_agree : forall a b cs,
+  plain_or_empty a = true -> plain_or_empty b = true -> iri_equ a b cs = iri_eqb a b cs.
+Proof. exact iri_equ_plain_or_empty. Qed.
+Theorem C09_u_agrees_plain : forall x y,
+  ids_in plain_or_empty x = true -> ids_in plain_or_empty y = true -> ieq_u x y = ieq x y.
+Proof. exact ieq_u_plain. Qed.
+Theorem C09_u_agrees_plain_dom : forall x y, ids_in iri_dom x = true -> ids_in iri_dom y = true -> ieq_u x y = ieq x y.
+Proof. exact ieq_u_plain_dom. Qed.
+(* non-vacuity: an activity with an embedded actor, an id-less link with href, an IRI list and a list of objects, against
+   a copy in other presentations of the same ids; all ids in iri_dom; and a value with an id outside it (escaped letter),
+   where the hypothesis fails and so does the conclusion (C09_example_id_u) *)
+Example C09_example_u_agrees_plain :
+  let alice := IObj true KActor [(F_ID, FStr (B "https://example.com/users/alice")); (F_Type, FStr (B "Person"))] in
+  let alice' := IIri false (B "HTTPS://EXAMPLE.com/users/./alice/#me") in
+  let lk := IObj true KLink [(F_Type, FStr (B "Link")); (F_Href, FStr (B "https://example.com/a.png"))] in
+  let x := IObj true KActivity [(F_ID, FStr (B "https://example.com/activities/1")); (F_Type, FStr (B "Like"));
+             (F_Actor, FItem alice); (F_Object, FItem (IItems false (Some [lk; alice])));
+             (F_To, FItems (Some [IIris false (Some [B "https://example.com/users/bob?x=1&y=2"])]))] in
+  let y := IObj true KActivity [(F_ID, FStr (B "HTTPS://EXAMPLE.com/activities/./1/")); (F_Type, FStr (B "like"));
+             (F_Actor, FItem alice'); (F_Object, FItem (IItems false (Some [alice'; lk])));
+             (F_To, FItems (Some [IIris false (Some [B "https://example.com/users/bob?y=2&x=1"])]))] in
+  ids_in iri_dom x = true /\ ids_in iri_dom y = true /\ ieq_u x y = Ok true /\ ieq x y = Ok true /\
+  ids_in plain_or_empty (IObj true KObject [(F_ID, FStr (B "https://example.com/users/%41lice"))]) = false.
+Proof. cbv zeta. repeat split; vm_compute; reflexivity. Qed.
 
 (* ---- the wide model under the translator (builder b47) ----
    The table ties of the blocks above (b26, b32) are generic in the IRI comparison too (modules EtGP, ItGP, CcGP of
